@@ -478,7 +478,7 @@ pub fn bank_info(r: &mut Rng, h: u8) -> String {
             b(r),
             r.below(3),
             r.below(101),
-            ["a.wav", "", "b c.ogg", "dir/x.wav", "x:y.wav", "音.wav", "é", "日a"][r.below(8)]
+            ["a.wav", "", "b c.ogg", "dir/x.wav", "x:y.wav", "音.wav", "é", "日a", "sfx\\hit_1.wav", "a\\b/c.ogg", "UPPER.WAV", "x,y.wav", "\"q\".wav", "a|b.wav"][r.below(14)]
         ),
         5 => format!("{}:{}", b(r), b(r)),
         6 => format!("{}:{}:{}", b(r), b(r), r.below(4)),
